@@ -545,6 +545,8 @@ type lfield struct {
 	src    string // provenance / printer / text
 	pos    token.Pos
 	single bool // hdl single-bit form [A]
+	kind   string   // operand kind: register | input | output | shared | number | ""
+	uses   []string // how the decoded value is used (dis: printer kind; sim: array kinds it indexes)
 }
 
 func (f lfield) String() string { return "[off " + f.off.String() + ", w " + f.w.String() + "]" }
@@ -657,6 +659,27 @@ func (lc *layoutCtx) extract(v *opViews, fd *ast.FuncDecl) {
 		}
 		var loops []loopB
 		partialProv := map[types.Object]string{}
+		loopNameKind := map[*ast.ForStmt]string{}
+		var curLoop *ast.ForStmt
+		nameKindOf := func(n ast.Node) string {
+			k := ""
+			ast.Inspect(n, func(m ast.Node) bool {
+				if call, ok := m.(*ast.CallExpr); ok {
+					if c := core.CalleeOf(lc.info, call); c != nil {
+						switch c.Name() {
+						case "Get_register_name":
+							k = "register"
+						case "Get_input_name":
+							k = "input"
+						case "Get_output_name":
+							k = "output"
+						}
+					}
+				}
+				return k == ""
+			})
+			return k
+		}
 		lc.walk(fd.Body.List, en, func(n ast.Node, en lenv) {
 			switch s := n.(type) {
 			case *ast.ForStmt:
@@ -669,6 +692,8 @@ func (lc *layoutCtx) extract(v *opViews, fd *ast.FuncDecl) {
 								v.padPos = s.Pos()
 							} else {
 								loops = append(loops, loopB{lc.info.ObjectOf(id), hi})
+								loopNameKind[s] = nameKindOf(s.Body)
+								curLoop = s
 							}
 						}
 					}
@@ -722,7 +747,20 @@ func (lc *layoutCtx) extract(v *opViews, fd *ast.FuncDecl) {
 								prov = p
 							}
 						}
-						v.asm = append(v.asm, lfield{w: w, src: prov, pos: call.Pos()})
+						kind := ""
+						switch {
+						case strings.HasPrefix(prov, "Process_input"):
+							kind = "input"
+						case strings.HasPrefix(prov, "Process_output"):
+							kind = "output"
+						case strings.HasPrefix(prov, "Process_shared"):
+							kind = "shared"
+						case strings.HasPrefix(prov, "Process_number"):
+							kind = "number"
+						case strings.HasPrefix(prov, "index<"):
+							kind = loopNameKind[curLoop]
+						}
+						v.asm = append(v.asm, lfield{w: w, src: prov, pos: call.Pos(), kind: kind})
 					}
 				}
 			}
@@ -734,8 +772,10 @@ func (lc *layoutCtx) extract(v *opViews, fd *ast.FuncDecl) {
 		}
 	case name == "Disassembler":
 		lc.walk(fd.Body.List, en, slices(&v.dis, "instr"))
+		lc.decodedUses(fd, v.dis)
 	case name == "Simulate":
 		lc.walk(fd.Body.List, en, slices(&v.sim, "instr"))
+		lc.decodedUses(fd, v.sim)
 	case strings.Contains(strings.ToLower(name), "verilog"):
 		lc.walk(fd.Body.List, en, func(n ast.Node, en lenv) {
 			inspectShallow(n, func(m ast.Node) bool {
@@ -781,6 +821,79 @@ func (lc *layoutCtx) extract(v *opViews, fd *ast.FuncDecl) {
 			})
 		})
 	}
+}
+
+// decodedUses: for each slice `x := get_id(instr[a:b])`, how is x used — which name function prints
+// it (Disassembler) or which VM arrays it indexes (Simulate).
+func (lc *layoutCtx) decodedUses(fd *ast.FuncDecl, fields []lfield) {
+	byPos := map[token.Pos]int{}
+	for i, f := range fields {
+		byPos[f.pos] = i
+	}
+	varOf := map[types.Object]int{}
+	ast.Inspect(fd.Body, func(n ast.Node) bool {
+		as, ok := n.(*ast.AssignStmt)
+		if !ok || len(as.Lhs) != 1 || len(as.Rhs) != 1 {
+			return true
+		}
+		id, ok := as.Lhs[0].(*ast.Ident)
+		if !ok {
+			return true
+		}
+		// find a slice expression of a known field inside the RHS
+		ast.Inspect(as.Rhs[0], func(m ast.Node) bool {
+			if se, ok := m.(*ast.SliceExpr); ok {
+				if i, ok := byPos[se.Pos()]; ok {
+					if o := lc.info.ObjectOf(id); o != nil {
+						varOf[o] = i
+					}
+				}
+			}
+			return true
+		})
+		return true
+	})
+	add := func(i int, u string) {
+		for _, x := range fields[i].uses {
+			if x == u {
+				return
+			}
+		}
+		fields[i].uses = append(fields[i].uses, u)
+	}
+	vmArrayKind := map[string]string{"Registers": "register", "Inputs": "input", "InputsValid": "input", "InputsRecv": "input", "Outputs": "output", "OutputsValid": "output", "OutputsRecv": "output"}
+	ast.Inspect(fd.Body, func(n ast.Node) bool {
+		switch x := n.(type) {
+		case *ast.CallExpr:
+			if c := core.CalleeOf(lc.info, x); c != nil && len(x.Args) == 1 {
+				if id, ok := ast.Unparen(x.Args[0]).(*ast.Ident); ok {
+					if i, ok := varOf[lc.info.ObjectOf(id)]; ok {
+						switch c.Name() {
+						case "Get_register_name":
+							add(i, "register")
+						case "Get_input_name":
+							add(i, "input")
+						case "Get_output_name":
+							add(i, "output")
+						case "Itoa":
+							add(i, "number")
+						}
+					}
+				}
+			}
+		case *ast.IndexExpr:
+			if id, ok := ast.Unparen(x.Index).(*ast.Ident); ok {
+				if i, ok := varOf[lc.info.ObjectOf(id)]; ok {
+					if f := core.FieldOf(lc.info, x.X); f != nil && f.Pkg() != nil && strings.HasSuffix(f.Pkg().Path(), "pkg/procbuilder") {
+						if k, ok := vmArrayKind[f.Name()]; ok {
+							add(i, k)
+						}
+					}
+				}
+			}
+		}
+		return true
+	})
 }
 
 func (lc *layoutCtx) pos(n ast.Node) string {
